@@ -450,7 +450,7 @@ def utm_part(R: Run, mods):
     from odc.geo import geom
 
     rng = R.rng
-    for _ in range(R.pick(24, 120)):
+    for _ in range(R.pick(16, 120)):
         lon = rng.uniform(-179, 179)
         lat = rng.uniform(-79, 83)
         if 56 <= lat <= 64 and 0 <= lon <= 13 or lat >= 72 and 0 <= lon <= 42:
@@ -974,6 +974,91 @@ def fastpath_part(R: Run, mods):
                      f"but the same request with resolution={sr.x, sr.y} gives {tuple(slow.shape)} {tuple(slow.affine)[:6]}")
 
 
+def utm_matrix_part(R: Run, mods):
+    """'utm' / 'utm-n' / 'utm-s' destinations over a position x size matrix: rasters from a single 0.5 m pixel to
+    ~300 km, centred +-{0.1 px, 0.9 px, 10 px, 1 km} from every kind of zone boundary (lon = 6k deg, the equator,
+    +-180, the 84N / 80S limits).  Oracle independent of odc-geo: the area of use of the chosen EPSG code (pyproj
+    database) overlaps the raster, is THE zone when the raster lies entirely in one, hemisphere as requested / by
+    latitude; plus enclosure etc. through judge(); a source already in its own best zone comes back unchanged."""
+    import pyproj
+
+    Affine, GeoBox, ov, M, CRS, norm_crs, _pick, resxy_, xy_, AnchorEnum = mods
+    rng = R.rng
+    sizes = [(1, 0.5), (6, 1.0), (100, 10.0), (1000, 30.0), (3000, 100.0)]
+    for _ in range(R.pick(54, 420)):
+        npx, res = rng.choice(sizes)
+        off_m = rng.choice([0.1 * res, 0.9 * res, 10 * res, 1000.0]) * rng.choice([1, -1])
+        kind = rng.choice(["zone", "zone", "zone", "equator", "equator", "antimeridian", "limit"])
+        lat = rng.choice([rng.uniform(-70, 75), rng.uniform(-5, 5), 47.3, -33.1])
+        lon = -180 + 6 * rng.randint(1, 59) + rng.uniform(0.7, 5.3)
+        m_lat = 1 / 110574.0
+        if kind == "zone":
+            lon = -180 + 6 * rng.randint(1, 59) + off_m / (111320.0 * math.cos(math.radians(lat)))
+        elif kind == "equator":
+            lat = off_m * m_lat
+        elif kind == "antimeridian":
+            half = (npx * res / 2 + abs(off_m) + 1) / (111320.0 * math.cos(math.radians(lat)))
+            lon = rng.choice([180 - half, -180 + half])
+        else:
+            half = (npx * res / 2 + abs(off_m) + 1) * m_lat
+            lat = rng.choice([84 - half, -80 + half])
+        zone_c = min(60, int((lon + 180) // 6) + 1)
+        src_kind = rng.choice(["4326", "4326", "3857", "own-utm", "next-utm"]) if abs(lat) < 80 else "4326"
+        if src_kind == "4326":
+            sc, r = "EPSG:4326", res * m_lat
+        elif src_kind == "3857":
+            sc, r = "EPSG:3857", res / max(0.05, math.cos(math.radians(lat)))
+        else:
+            z = zone_c if src_kind == "own-utm" else min(60, max(1, zone_c + rng.choice([-1, 1])))
+            sc, r = f"EPSG:{(32600 if lat >= 0 else 32700) + z}", res
+        try:
+            tr = pyproj.Transformer.from_crs("EPSG:4326", sc, always_xy=True)
+            cx, cy = tr.transform(lon, lat)
+            g = GeoBox((npx, npx), Affine(r, 0, cx - r * npx / 2, 0, -r, cy + r * npx / 2), mk_crs(rng, CRS, sc))
+            back = pyproj.Transformer.from_crs(sc, "EPSG:4326", always_xy=True)
+            cs = [back.transform(g.affine.c + i * r * npx, g.affine.f - j * r * npx) for i in (0, 0.5, 1) for j in (0, 0.5, 1)]
+        except Exception:  # pylint: disable=broad-except
+            continue
+        lons, lats = [c[0] for c in cs], [c[1] for c in cs]
+        if not all(math.isfinite(v) for v in lons + lats) or max(lons) - min(lons) > 20:
+            continue
+        req = rng.choice(UTM_SPELLINGS)
+        rl = req.lower()
+        case = {"utm-matrix": kind, "src": f"{tuple(g.shape)} {tuple(g.affine)[:6]} {sc}", "dst": req, "centre": [lon, lat],
+                "offset_m": off_m, "pixel_m": res, "mode": "auto", "shape": None, "tight": False, "anchor": "default", "tol": 0.01,
+                "round": None, "class": "utm-matrix"}
+        try:
+            out, spy = call_cog(mods, g, req, "auto", None, False, "default", 0.01, None)
+        except Exception as e:  # pylint: disable=broad-except
+            R.oracle(False, "compute-output-raises", case, f"{type(e).__name__}: {e}")
+            continue
+        e = out.crs.epsg
+        if e is None or not (32601 <= e <= 32660 or 32701 <= e <= 32760):
+            R.oracle(False, "utm-zone-of-raster", case, f"{req} resolved to {out.crs}")
+            continue
+        aou = pyproj.CRS.from_epsg(e).area_of_use  # west, south, east, north from the EPSG database
+        lo, hi = min(lons), max(lons)
+        ov_lon = min(hi, aou.east) - max(lo, aou.west)
+        ok = ov_lon > 0 or (hi - lo == 0 and aou.west <= lo <= aou.east)
+        # the raster lies entirely inside one zone -> that zone
+        z_lo, z_hi = int((lo + 180) // 6) + 1, int((hi + 180 - 1e-12) // 6) + 1
+        if z_lo == z_hi:
+            ok = ok and (e % 100) == min(60, z_lo)
+        R.oracle(ok, "utm-zone-of-raster", case,
+                 f"{req} resolved to EPSG:{e} (area of use {aou.west}..{aou.east} E) for a raster spanning lon {lo:.7f}..{hi:.7f}", sig=f"utm-matrix|{kind}")
+        south = e > 32700
+        if rl in ("utm-n", "utm-s"):
+            R.oracle(south == (rl == "utm-s"), "utm-hemisphere-out", case, f"{req} resolved to EPSG:{e}")
+        elif min(lats) > 0 or max(lats) < 0:
+            R.oracle(south == (max(lats) < 0), "utm-hemisphere-of-raster", case,
+                     f"{req} resolved to EPSG:{e} for a raster spanning lat {min(lats):.7f}..{max(lats):.7f}", sig=f"utm-matrix|{kind}")
+        # a source already in the zone it lies in comes back unchanged
+        if src_kind == "own-utm" and z_lo == z_hi and g.crs.epsg == e:
+            R.oracle(out is g, "utm-own-zone-identity", case, "source already in its UTM zone was not returned unchanged")
+        if npx * res <= 4e5 and abs(lat) < 79:
+            judge(R, mods, g, req, "auto", None, False, "default", 0.01, None, out, spy, case, None, None)
+
+
 def coarse_part(R: Run, mods):
     """coarse destinations (output pixel >= 100 source pixels) with small tol and footprint edges placed
     tol * {0.5, 2} before / past output pixel boundaries (captured-bbox construction: the pixel size and the
@@ -1033,6 +1118,7 @@ def run(R: Run):
     crs_churn(R, mods, R.pick(320, 1600))
     nonepsg_part(R, mods)
     fastpath_part(R, mods)
+    utm_matrix_part(R, mods)
     coarse_part(R, mods)
     float_part(R, mods)
     R.assumptions.append("pyproj/PROJ transformations, shapely buffer/densify and the pyproj UTM database query are parameters: "
